@@ -110,6 +110,9 @@ def body(case, ctx):
     elif kind == "column":
         col = np.array(case["b"]["vals"], dtype=case["b"]["dt"]).reshape(n, 1)
         other_obj = col
+        if case.get("col_as_list") and n >= 1 and case["b"]["dt"] in ("int64", "float64", "bool"):
+            other_obj = col.tolist()          # a nested list [[v], [w], ...] is converted by the library itself
+            ctx.label("column:list")
         other_flat = np.repeat(col.ravel(), lens)
         nt = True
     else:
@@ -123,7 +126,7 @@ def body(case, ctx):
             exp = lib(apply, name, "ufunc", flat_a, other_flat)
         else:
             exp = lib(apply, name, "ufunc", other_flat, flat_a)
-        col_before = other_obj.copy() if kind == "column" else None
+        col_before = (other_obj.copy() if isinstance(other_obj, np.ndarray) else None) if kind == "column" else None
         # ---- library
         if kind == "unary":
             got = lib(apply, name, spell, ra)
@@ -162,7 +165,7 @@ def body(case, ctx):
     expect_unchanged(ra, np_rows(a), a["dt"], "ufunc-operand-a")
     if kind == "ragged":
         expect_unchanged(other_obj, b_rows, case["b"]["dt"], "ufunc-operand-b")
-    if kind == "column" and not arrays_equal(other_obj, col_before):
+    if kind == "column" and col_before is not None and not arrays_equal(other_obj, col_before):
         raise Violation("ufunc:column-modified")
 
 
@@ -204,6 +207,7 @@ def ufunc_case(draw, tier, kinds=("unary", "ragged", "scalar", "column")):
         else:
             dt = draw(st.sampled_from(gen.C04_DT))
             case["b"] = {"dt": dt, "vals": draw(gen.flat_values(dt, len(lens), wide=True))}
+            case["col_as_list"] = draw(st.sampled_from([False, False, False, True]))
     case["op"] = name
     case["spell"] = draw(st.sampled_from(["ufunc", "operator"])) if opname else "ufunc"
     return case
